@@ -367,7 +367,7 @@ def unrelated_statements(ch, label, colliding, k, after_def=None, local_name=Non
     kinds = kinds + ["async_local_class", "def_local_class"]
     # less common but perfectly legal module content
     kinds = kinds + ["type_checking_block", "conditional_def", "redefinition", "dunder_all", "unicode", "semicolons", "string_annotation",
-                     "type_comment", "star_args", "posonly", "decorated_function", "lambda_default", "walrus_fstring"]
+                     "type_comment", "star_args", "posonly", "decorated_function", "lambda_default", "walrus_fstring", "main_guard", "try_import"]
     import sys as _sys
 
     if _sys.version_info[:2] >= (3, 12):
@@ -431,6 +431,10 @@ def unrelated_statements(ch, label, colliding, k, after_def=None, local_name=Non
             src = "def sorter_%s(key=lambda item: (item.%s, -item.rank), reverse=not True):\n    return sorted([], key=key, reverse=reverse)" % (tag, cname)
         elif kind == "walrus_fstring":
             src = "if (n_%s := len(sys.argv)) > 1:\n    banner_%s = f\"{n_%s!r:>4} args, {'%s'!s} last\"" % (tag, tag, tag, cname)
+        elif kind == "main_guard":
+            src = "if __name__ == '__main__':\n    logging_%s = True" % tag
+        elif kind == "try_import":
+            src = "try:\n    import yaml as yaml_%s\nexcept ImportError:\n    yaml_%s = None\nfinally:\n    done_%s = True" % (tag, tag, tag)
         elif kind == "helper":
             src = "def helper_%s(x, y=2):\n    \"\"\"helper\"\"\"\n    return x + y" % tag
         elif kind == "helper_collide":
